@@ -258,6 +258,8 @@ struct ReaderState {
     id_count: i32,
     file: PathBuf,
     content: String,
+    /// Qualified name (with namespace prefix) of the element that was started last.
+    current_qname: Vec<u8>,
 
     // The resulting fsm
     fsm: Box<Fsm>,
@@ -285,6 +287,7 @@ impl ReaderState {
             fsm: Box::new(Fsm::new()),
             file: Path::new("Buffer").to_path_buf(),
             content: "".to_string(),
+            current_qname: Vec::new(),
             include_paths: Vec::new(),
         }
     }
@@ -1401,13 +1404,17 @@ impl ReaderState {
 
     /// Reads the content until an end-tag is encountered.
     fn read_content(&mut self, tag: &str, reader: &mut XReader) -> String {
-        let start = BytesStart::new(tag.to_string());
-        let end = start.to_end().into_owned();
+        // The end tag carries the same (possibly prefixed) name as the start tag.
+        let qname = if self.current_qname.is_empty() {
+            tag.as_bytes().to_vec()
+        } else {
+            self.current_qname.clone()
+        };
 
         let mut buf = Vec::new();
-        let content = match reader.read_to_end_into(end.name(), &mut buf) {
+        let content = match reader.read_to_end_into(quick_xml::name::QName(&qname), &mut buf) {
             Ok(span) => {
-                let r = self.content[(span.start as usize)..(span.end as usize)]
+                let r = Self::decode_text_content(&self.content[(span.start as usize)..(span.end as usize)])
                     .trim()
                     .to_string();
                 #[cfg(feature = "Debug_Reader")]
@@ -1422,6 +1429,40 @@ impl ReaderState {
         self.pop();
 
         content
+    }
+
+    /// Decodes the raw text between start and end tag: CDATA sections give their text, entity references
+    /// are replaced. Content with child elements (e.g. an inline <scxml> document) is kept as it is.
+    fn decode_text_content(raw: &str) -> String {
+        let mut decoded = String::with_capacity(raw.len());
+        let mut rest = raw;
+        loop {
+            let (text, cdata_and_rest) = match rest.find("<![CDATA[") {
+                Some(pos) => (&rest[..pos], Some(&rest[pos + 9..])),
+                None => (rest, None),
+            };
+            if text.contains('<') {
+                return raw.to_string();
+            }
+            match quick_xml::escape::unescape(text) {
+                Ok(unescaped) => decoded.push_str(&unescaped),
+                Err(_) => decoded.push_str(text),
+            }
+            match cdata_and_rest {
+                None => break,
+                Some(cdata) => match cdata.find("]]>") {
+                    Some(end) => {
+                        decoded.push_str(&cdata[..end]);
+                        rest = &cdata[end + 3..];
+                    }
+                    None => {
+                        decoded.push_str(cdata);
+                        break;
+                    }
+                },
+            }
+        }
+        decoded
     }
 
     fn start_content(&mut self, attr: &AttributeMap, reader: &mut XReader, has_content: bool) {
@@ -1704,6 +1745,7 @@ impl ReaderState {
         let n = e.local_name();
         let name = str::from_utf8(n.as_ref()).unwrap();
         self.push(name);
+        self.current_qname = e.name().as_ref().to_vec();
 
         #[cfg(feature = "Debug_Reader")]
         debug!("Start Element {}", name);
